@@ -1478,8 +1478,7 @@ def obj_getattr(ex, obj, name):
         return obj.cls
     if name == '__dict__':
         d = SDict()
-        for k, v in obj.fields.items():
-            d.d[k] = (k, v)
+        d.d = FieldsProxy(obj.fields)
         return d
     ga, _ = obj.cls.lookup('__getattr__')
     if isinstance(ga, FuncVal):
@@ -1490,6 +1489,52 @@ def obj_getattr(ex, obj, name):
                 '__getattribute__', 'with_traceback'):
         return NativeMethod(obj, name)
     ex.throw('AttributeError', "'%s' object has no attribute %r" % (obj.cls.name, name))
+
+
+class FieldsProxy(object):
+    """live view of an object's attribute dict in SDict storage format"""
+    def __init__(self, fields):
+        self.f = fields
+
+    def __getitem__(self, k):
+        return (k, self.f[k])
+
+    def __setitem__(self, k, v):
+        self.f[k] = v[1]
+
+    def __delitem__(self, k):
+        del self.f[k]
+
+    def __contains__(self, k):
+        return k in self.f
+
+    def __iter__(self):
+        return iter(self.f)
+
+    def __len__(self):
+        return len(self.f)
+
+    def keys(self):
+        return self.f.keys()
+
+    def values(self):
+        return [(k, v) for k, v in self.f.items()]
+
+    def items(self):
+        return [(k, (k, v)) for k, v in self.f.items()]
+
+    def get(self, k, default=None):
+        return (k, self.f[k]) if k in self.f else default
+
+    def pop(self, k, *a):
+        if k in self.f:
+            return (k, self.f.pop(k))
+        if a:
+            return a[0]
+        raise KeyError(k)
+
+    def clear(self):
+        self.f.clear()
 
 
 class LazyField(object):
